@@ -3090,12 +3090,13 @@ POLY_KERNELS = ["modulo", "negate", "negate_inplace", "add", "add_inplace", "sub
                 "sub_scalar", "sub_scalar_inplace", "multiply_scalar", "multiply_scalar_inplace", "multiply_operand", "multiply_operand_inplace",
                 "dyadic_product", "dyadic_product_inplace", "negacyclic_shift", "negacyclic_multiply_mononomial",
                 "negacyclic_multiply_mononomial_inplace"]
-POLY_WRAPPED = ["modulo", "negate", "negate_inplace", "add", "add_inplace", "sub", "sub_inplace", "multiply_scalar", "multiply_scalar_inplace",
-                "multiply_operand", "multiply_operand_inplace", "dyadic_product", "dyadic_product_inplace", "negacyclic_shift",
-                "negacyclic_multiply_mononomial", "negacyclic_multiply_mononomial_inplace"]
+# wrappers: only those the library calls (src/evaluator.rs, src/encryptor.rs, ...); a generated function without a theorem only adds fragility
+POLY_WRAPPERS = ["negate_inplace_p", "negate_inplace_ps", "add_inplace_p", "add_inplace_ps", "sub_inplace_p", "sub_inplace_ps",
+                 "multiply_scalar_p", "multiply_scalar_inplace_p", "multiply_scalar_inplace_ps", "dyadic_product_p", "dyadic_product_inplace_p",
+                 "negacyclic_shift_p", "negacyclic_shift_ps", "negacyclic_multiply_mononomial_inplace_p", "negacyclic_multiply_mononomial_inplace_ps"]
 TABLE_POLY = [{"file": "src/modulus.rs", "fn": "reduce", "impl": "Modulus", "lean": "mod_reduce", "model": "barrett64"},
               {"file": UB, "fn": "set_uint", "model": "(copy of a prefix)"}] + \
-             [_pk(k) for k in POLY_KERNELS] + [_pk(k + suf) for k in POLY_WRAPPED for suf in ("_p", "_ps")]
+             [_pk(k) for k in POLY_KERNELS] + [_pk(k) for k in POLY_WRAPPERS]
 
 FILES += [
     ("WordFns.lean", {"ns": "GenW", "imports": ["Heathcliff.Model.Word"], "table": TABLE, "prelude": PRELUDE}),
